@@ -418,8 +418,8 @@ func runPlugins(c *Ctx) {
 	}
 	// corpus: the repaired defects first
 	corpus4 := map[string][][]string{"staticroute": {{"2001:db8::/32,10.0.0.1"}, {"10.0.0.0/8,2001:db8::1"}, {"::ffff:10.0.0.0/104,192.168.1.1"}},
-		"ipv6only": {{"30m"}}, "server_id": {{"10.9.9.9"}}}
-	corpus6 := map[string][][]string{"nbp": {{"http://host/p?params=abc"}, {"tftp://10.0.0.1/boot.efi"}, {"http://[2001:db8::1]/boot.php?arch=x64"}, {"http://h/b?params="}}, "server_id": {{"LL", "00:11:22:33:44:55"}, {"duid-llt", "aa-bb-cc-dd-ee-ff"}}}
+		"ipv6only": {{"30m"}}, "server_id": {{"10.9.9.9"}}, "sleep": {{"0s"}, {"-1ms"}, {"1ms"}}}
+	corpus6 := map[string][][]string{"nbp": {{"http://host/p?params=abc"}, {"tftp://10.0.0.1/boot.efi"}, {"http://[2001:db8::1]/boot.php?arch=x64"}, {"http://h/b?params="}}, "server_id": {{"LL", "00:11:22:33:44:55"}, {"duid-llt", "aa-bb-cc-dd-ee-ff"}}, "sleep": {{"0s"}, {"-1ms"}}}
 	// every value of the small argument pools is used at least once per run
 	base := map[string][]string{
 		"nbp":           {"tftp://10.0.0.1/boot.efi", "http://host/path?params=a+b", "https://h/x", "ftp://h/y", "bootfile", "tftp://[::1]/x", "://bad", "http://host/p?params=abc", "", "tftp://srv", "HTTP://UPPER/x", "file:///local/path", "http://10.0.0.1/boot.php?arch=x64", "http://h/b?params=", "http://h/b?x=1&params=p1+p2", "tftp://192.0.2.7/pxelinux.0"},
